@@ -14,4 +14,7 @@ mkdir -p .cache
 ( cd harness/storage_harness && RUSTFLAGS="--cfg gecs_verif" cargo build --offline --profile fastrel --target-dir ../../.cache/target-default ) || echo "setup: harness (fastrel, no features) build failed"
 [ -f harness/macro_drive/Cargo.lock ] || cp /repo/Cargo.lock harness/macro_drive/Cargo.lock
 ( cd harness/macro_drive && cargo build --offline --target-dir ../../.cache/target-macro ) || echo "setup: macro_drive build failed"
+( cd harness/storage_harness && RUSTFLAGS="--cfg gecs_verif" cargo build --offline --profile dev --features events --target-dir ../../.cache/target-events ) || echo "setup: harness (dev, events) build failed"
+( cd harness/storage_harness && RUSTFLAGS="--cfg gecs_verif" cargo build --offline --profile dev --features wrapping_version --target-dir ../../.cache/target-wrapping_version ) || echo "setup: harness (dev, wrapping) build failed"
+( cd harness/storage_harness && RUSTFLAGS="--cfg gecs_verif" cargo build --offline --profile dev --features comps32 --target-dir ../../.cache/target-comps32 ) || echo "setup: harness (dev, comps32) build failed"
 echo "setup done"
